@@ -10,6 +10,11 @@ from pyvc.contracts import Contract, State, conj, disj
 from pyvc.states import inp, sym_mesh, _eq, snapshot
 from .shared import RegionInit, MeshInit, Index2Point, NDIMS, HALF
 from .geom import MeshTranslate, RegionTranslate
+from pyvc.states import DIMS
+from pyvc.ndarr import NDArr
+from . import c03 as _c03
+
+setup_engine = _c03.setup_engine
 
 ND = {'quick': (1, 2, 3), 'thorough': (1, 2, 3, 4)}
 
@@ -196,7 +201,104 @@ class Lemmas(Contract):
         return obs
 
 
-CONTRACTS = [MeshFFTN(), MeshIFFTN(), Lemmas()]
+class FieldFFTMeta(Contract):
+    """Field._fftn(mesh, array, ifftn) - the one place where fftn / ifftn / rfftn / irfftn build their result: the result is a
+    field on the mesh handed in (the k-mesh / real-space mesh of the contracts above) holding the array handed in, with the
+    unit kept and components and their axis mapping renamed CONSISTENTLY: component v becomes ft_v (back: the prefix is
+    stripped), and whatever axis x component v was mapped to, ft_v is mapped to k_x (back: x) - for every presentation of the
+    mapping (dict order independent of the order of the components), mappings naming an axis the mesh does not have (what a
+    plane selection leaves behind) and empty mappings."""
+    name = 'Field._fftn'
+    qual = ('Field', '_fftn')
+    func = 'Field._fftn'
+    no_crosscheck = True
+
+    # (a mapping must name every component, mesh.py:595; entries with value None - 'mapped to no axis' - are not a documented
+    #  form and the library never produces them: fftn turns them into the string 'k_None'; observation only, not part of the contract)
+    MAPPINGS = ('none', 'default', 'permuted', 'shuffled_dict', 'foreign_axis', 'empty')
+
+    def configs(s, tier):
+        out = []
+        for d in ((1, 2, 3) if tier == 'quick' else (1, 2, 3, 4)):
+            for inv in (False, True):
+                for mp in s.MAPPINGS:
+                    if mp in ('permuted', 'shuffled_dict') and d == 1:
+                        continue
+                    out.append({'ndim': d, 'ifftn': inv, 'mapping': mp})
+        return out
+
+    def use_contracts(s):
+        from .fieldc import FieldInit
+        return [RegionInit(), MeshInit(), FieldInit()]
+
+    def names(s, cfg):
+        d, inv, mp = cfg['ndim'], cfg['ifftn'], cfg['mapping']
+        real_dims = DIMS[:d]
+        kdims = tuple('k_' + x for x in real_dims)
+        src_dims, dst_dims = (kdims, real_dims) if inv else (real_dims, kdims)
+        if mp == 'none':
+            return src_dims, dst_dims, None, {}, None, {}
+        comp = ['mp', 'mq', 'mr', 'ms'][:d]
+        src_v = ['ft_' + c for c in comp] if inv else comp
+        dst_v = comp if inv else ['ft_' + c for c in comp]
+        pairing = {'default': list(range(d)), 'empty': [], 'permuted': list(reversed(range(d))), 'shuffled_dict': list(reversed(range(d))),
+                   'foreign_axis': list(range(d))}[mp]
+        pairs = [(i, pairing[i]) for i in range(len(pairing))]
+        if mp == 'foreign_axis':
+            # the last component is mapped to an axis name the mesh does not have (left behind by a plane selection)
+            src_dims, dst_dims = tuple(src_dims) + (('k_w',) if inv else ('w',)), tuple(dst_dims) + (('w',) if inv else ('k_w',))
+            comp = comp + ['mw']
+            src_v = ['ft_' + c for c in comp] if inv else comp
+            dst_v = comp if inv else ['ft_' + c for c in comp]
+            pairs = pairs + [(d, d)]
+        if mp == 'shuffled_dict':
+            pairs = pairs[1:] + pairs[:1]      # same pairing, dict lists its keys in another order than vdims
+        src_map = {src_v[i]: src_dims[j] for i, j in pairs}
+        dst_map = {dst_v[i]: dst_dims[j] for i, j in pairs}
+        return src_dims[:d], dst_dims[:d], src_v, src_map, dst_v, dst_map
+
+    def pre_state(s, E, cfg):
+        from .fieldc import sym_field
+        d = cfg['ndim']
+        src_dims, dst_dims, src_v, src_map, dst_v, dst_map = s.names(cfg)
+        nv = len(src_v) if src_v else 1
+        m, assume = sym_mesh(E, d, prefix='fm', tf=1e-12, dims=src_dims)
+        f, assume = sym_field(E, d, nv, mesh=m, assume=assume, unit='T', vdims=src_v, mapping=src_map)
+        m2, assume = sym_mesh(E, d, prefix='tm', tf=1e-12, dims=dst_dims, assume=assume)
+        n2 = [E.pyscalar(x) for x in m2.attrs['_n'].elems]
+        arr = E.sym_array('ft', n2 + [nv], 'float')
+        st = State(f, [m2, arr], {'ifftn': cfg['ifftn']})
+        st.assume, st.cfg = assume, cfg
+        return st
+
+    def frame(s, E, st):
+        return [('self', st.self), ('mesh', st.args[0]), ('array', st.args[1])]
+
+    def post(s, E, st, result):
+        src_dims, dst_dims, src_v, src_map, dst_v, dst_map = s.names(st.cfg)
+        if not isinstance(result, Obj) or result.cls != 'Field':
+            return [('returns a Field', False)]
+        a = result.attrs
+        out = [('on the mesh handed in', a.get('_mesh') is st.args[0]),
+               ('number of components kept', a.get('_nvdim') == st.self.attrs['_nvdim']),
+               ('unit kept', a.get('_unit') == st.self.attrs['_unit'])]
+        want_v = dst_v if dst_v is not None else None
+        got_v = a.get('_vdims')
+        out.append(('components renamed (ft_ prefix added / stripped), order kept', (list(got_v) if got_v is not None else None) == want_v))
+        got_m = a.get('_vdim_mapping')
+        out.append(('axis mapping renamed consistently: ft_v -> k_x exactly where v -> x (as a set of pairs, for every dict order)',
+                    isinstance(got_m, dict) and dict(got_m) == dst_map))
+        arr = st.args[1]
+        ra = a.get('_array')
+        if not isinstance(ra, NDArr):
+            out.append(('holds an array', False))
+            return out
+        idx = E.skolem([E.pyscalar(x) for x in arr.shape], 'fi')
+        out.append(('holds the values handed in', R(ra.at(E, idx)) == R(arr.at(E, idx))))
+        return out
+
+
+CONTRACTS = [MeshFFTN(), MeshIFFTN(), Lemmas(), FieldFFTMeta()]
 _BY_NAME = {c.name: c for c in CONTRACTS}
 
 
@@ -213,6 +315,9 @@ TRUSTED = ['[A] scipy.fft.fftfreq / rfftfreq: sample frequencies [0..(n-1)//2, -
            'contracts of Region.__init__, Mesh.__init__, Mesh.index2point (C01), Region.translate (C13)']
 ASSUMPTIONS = ['only the geometry of the transforms is proved; transform values, shift/axis alignment of the data and label renaming are decided by the bounded tier against a direct DFT']
 MUTANTS = {
+    'fft_mapping_by_position': {'module': 'field', 'contract': 'Field._fftn', 'config': {'ndim': 2, 'ifftn': False, 'mapping': 'shuffled_dict'}, 'expect': 'axis mapping renamed',
+                                'old': '                    else:\n                        new_vdim_mapping[new_vdim] = f"k_{self.vdim_mapping[vdim]}"',
+                                'new': '                    else:\n                        new_vdim_mapping[new_vdim] = f"k_{list(self.vdim_mapping.values())[len(new_vdim_mapping)]}"'},
     'kmesh_not_shifted_by_half_spacing': {'module': 'mesh', 'contract': 'Mesh.fftn', 'config': {'ndim': 1, 'rfft': False},
                                           'old': 'p1.append(min(freqs) - dfreq)', 'new': 'p1.append(min(freqs))'},
     'rfft_on_first_axis': {'module': 'mesh', 'contract': 'Mesh.fftn', 'config': {'ndim': 2, 'rfft': True},
